@@ -19,7 +19,7 @@ cp -a /verif/work/target "$BASE/verif/work/target"
 RC=0
 for P in "$@"; do
   echo "=== $P"
-  (cd "$BASE/verif" && ./check "$P" quick 2>&1 | tail -4)
+  (cd "$BASE/verif" && ./check "$P" "${TIER:-quick}" 2>&1 | tail -4)
   if [ -f "$BASE/verif/work/replays/$P-1-input.case" ]; then head -3 "$BASE/verif/work/replays/$P-1-input.case" | cut -c1-400; fi
   if [ -f "$BASE/verif/work/replays/$P-1-tie.case" ]; then head -4 "$BASE/verif/work/replays/$P-1-tie.case" | cut -c1-400; fi
 done
